@@ -368,6 +368,11 @@ class Safety:
             if isinstance(node.func, ast.Attribute):
                 self.ev(node.func.value, env)
             return frozenset(self.sigs[txt])
+        if isinstance(node.func, ast.Attribute) and isinstance(node.func.value, ast.Name) and node.func.value.id == "self" \
+                and getattr(self.fi, "cls", None) is not None:
+            helper = self.constructor_helper(self.fi.cls.name, node.func.attr)
+            if helper is not None:
+                return frozenset(helper)
         if isinstance(node.func, ast.Attribute):
             base = self.ev(node.func.value, env)
             res = self.attr(node.func, base, env)
@@ -378,6 +383,8 @@ class Safety:
                 if a.startswith("<method "):
                     cls = a[8:-1].split(".")[0]
                     sig = self.sigs.get(f"{cls}.{meth}") or self.sigs.get(f"*.{meth}")
+                    if sig is None:
+                        sig = self.constructor_helper(cls, meth)
                     if sig is None:
                         known = False
                     else:
@@ -394,6 +401,41 @@ class Safety:
         if isinstance(node.func, ast.Name) and node.func.id in ("str",):
             return frozenset({"str"})
         return frozenset({ANY})
+
+    def constructor_helper(self, cls: str, meth: str):
+        """A private helper method of the class whose every return is None, `Cls(...)` of a repository class, or a local
+        assigned from such a call: the classes it may return (a block that builds an object, moved into a method).
+        None when the helper is anything else."""
+        if not meth.startswith("_") or meth.startswith("__"):
+            return None
+        for c in self.t.mro(cls) if cls in self.t.classes else []:
+            node = next((i for i in self.t.classes[c]["node"].body if isinstance(i, ast.FunctionDef) and i.name == meth), None)
+            if node is None:
+                continue
+            local = {}
+            for n in ast.walk(node):
+                if isinstance(n, ast.Assign) and len(n.targets) == 1 and isinstance(n.targets[0], ast.Name):
+                    v = n.value
+                    if isinstance(v, ast.Call) and isinstance(v.func, ast.Name) and v.func.id in self.t.classes:
+                        local.setdefault(n.targets[0].id, set()).add(v.func.id)
+                    else:
+                        local.setdefault(n.targets[0].id, set()).add(ANY)
+            out = set()
+            rets = [n for n in ast.walk(node) if isinstance(n, ast.Return)]
+            if not rets:
+                return None
+            for r in rets:
+                v = r.value
+                if v is None or (isinstance(v, ast.Constant) and v.value is None):
+                    out.add("None")
+                elif isinstance(v, ast.Call) and isinstance(v.func, ast.Name) and v.func.id in self.t.classes:
+                    out.add(v.func.id)
+                elif isinstance(v, ast.Name) and v.id in local and ANY not in local[v.id]:
+                    out |= local[v.id]
+                else:
+                    return None
+            return out
+        return None
 
     # ------------------------------------------------------------------ narrowing
     def narrow(self, test, env):
